@@ -71,6 +71,8 @@ def source_items(progs, vecs, maxn=4, adaptive=True):
             shp = set(sh)
             if pre is not None and any(fn and fi["emitted"] and not fi["inlined"] and not fi["is_constexpr"] for fn, fi in pre["functions"].items()):
                 shp.add("has_out_of_line_function")
+            if any(i["op"] == "push" for i in pb) and any(nd["kind"] in ("mem", "memwrite") for nd in a["nodes"]):
+                shp.add("own_stack_used_while_transpiler_pushes")
             items.append({"name": n, "tag": cw.vec_name(v), "src": s, "b_text": code, "shapes": sorted(shp),
                           "case": {"ast": a, "pb": pb, "dom": equiv.pick_dom(pb, pb), "maxn": maxn_case, "fuel": 4096},
                           "sample": {"case": n, "variant": cw.vec_name(v), "source": s, "emitted": code}})
